@@ -1174,7 +1174,8 @@ class Cycles:
         self.mask_conditions = None
 
         self.metrics = dict()
-        self.compute_cycle_metric('is_good', self.phase, is_good, dtype=int)
+        self.compute_cycle_metric('is_good', self.phase,
+                                  lambda x: is_good(x, phase_edge=phase_edge), dtype=int)
         if compute_timings:
             self.compute_cycle_timings()
 
